@@ -13,6 +13,7 @@ from ..ref import ind as RI
 
 HOSTS = ["ind", "hexd", "hexm"]
 TFCS = [(None, False), ("T2", False), ("T2", True)]
+LIFE_STEPS = 3  # lifespan variant: HA values of the retained candles must be the tail of the recurrence over the whole history
 
 
 def spaces(tier):
@@ -30,17 +31,19 @@ def expected(raw, tf, fill):
     return cs, R.heikin_ashi(cs)
 
 
-def execute(raw, tf, fill, host, preload, comp):
+def execute(raw, tf, fill, host, preload, comp, life=None):
     bind_repo()
+    from datetime import timedelta
     from hexital import Hexital, EMA
     first = fresh(raw[:preload])
+    lkw = {"candles_lifespan": timedelta(seconds=life)} if life else {}
     if host == "ind":
-        kw = {"timeframe": tf, "timeframe_fill": fill} if tf else {}
+        kw = dict({"timeframe": tf, "timeframe_fill": fill} if tf else {}, **lkw)
         obj = EMA(period=2, candles=first, candlestick_type="HA", **kw)
         obj.calculate()
         get = lambda: (obj.candles, obj.as_list())
     elif host == "hexd":
-        kw = {"timeframe": tf, "timeframe_fill": fill} if tf else {}
+        kw = dict({"timeframe": tf, "timeframe_fill": fill} if tf else {}, **lkw)
         obj = Hexital("x", first, [EMA(period=2)], candlestick_type="HA", **kw)
         obj.calculate()
         get = lambda: (obj.candles(), obj.reading_as_list("EMA_2"))
@@ -62,6 +65,10 @@ def close_to(a, b):
 def judge(prop, rep, case, raw, tf, fill, cands, ema):
     host = case["host"]
     base, ha = expected(raw, tf, fill)
+    life = case.get("life")
+    if life:
+        keep = len(R.trim(ha, life))
+        base, ha = base[len(base) - keep:], ha[len(ha) - keep:]
     if len(cands) != len(ha):
         rep.violation(f"C11|{host}|candle-count", dict(case, oracle="count", want=len(ha), got=len(cands)))
         return
@@ -78,6 +85,10 @@ def judge(prop, rep, case, raw, tf, fill, cands, ema):
             rep.violation(f"C11|{host}|clean-values", dict(case, oracle="clean", index=i, want=b[:5],
                                                             got={k: cv.get(k) for k in ("open", "high", "low", "close", "volume")}))
             return
+    if life:
+        if len(ha) >= 2 and len(case["comp"]) >= 1:
+            rep.add("nontrivial", (host, tf, fill, tuple(raw), case["preload"], case["comp"], life))
+        return  # readings under trimming are C15's
     exp = RI.ema(RI.col([h[:5] for h in ha], "close"), 2, 4)
     for i, (g, e) in enumerate(zip(ema, exp)):
         if e is None:
@@ -92,24 +103,26 @@ def judge(prop, rep, case, raw, tf, fill, cands, ema):
 
 
 def explore(item):
-    prop, tier, tf, fill, host, first = item
+    prop, tier, tf, fill, host, first, off, life = item
     sp = spaces(tier)
     rep = Report()
     n = sp["n"]
     if host == "hexm" and not tf:
         return rep
+    if life:
+        life = life * (A.tf_seconds(tf) if tf else 60)
     for tail in A.words(sp["sigma"], n - 1):
         word = first + tail
         gaps = A.regular_gaps("mix" if fill else "reg", n, A.tf_seconds(tf)) if tf else None
-        raw = raw_stream(word, "+" if tf else "b", gaps, tf)
+        raw = raw_stream(word, off if tf else "b", gaps, tf)
         for k in sp["preloads"]:
             if k > n:
                 continue
             for comp in (A.compositions(n - k) if k < n else [()]):
-                case = {"tf": tf, "fill": fill, "host": host, "raw": raw, "preload": k, "comp": comp}
+                case = {"tf": tf, "fill": fill, "host": host, "raw": raw, "preload": k, "comp": comp, "life": life}
                 try:
                     with deadline(sp["horizon"]):
-                        cands, ema = execute(raw, tf, fill, host, k, comp)
+                        cands, ema = execute(raw, tf, fill, host, k, comp, life)
                 except Horizon:
                     rep.inc("executions")
                     rep.violation(f"C11|{host}|horizon", dict(case, oracle="horizon"))
@@ -136,7 +149,7 @@ def replay(case):
     case = dict(case, comp=tuple(case["comp"]))
     try:
         with deadline(15):
-            cands, ema = execute(raw, case["tf"], case["fill"], case["host"], case["preload"], case["comp"])
+            cands, ema = execute(raw, case["tf"], case["fill"], case["host"], case["preload"], case["comp"], case.get("life"))
     except BaseException:
         return True
     judge("C11", rep, case, raw, case["tf"], case["fill"], cands, ema)
@@ -146,11 +159,14 @@ def replay(case):
 def main(prop, tier):
     t0 = time.time()
     sp = spaces(tier)
-    items = [(prop, tier, tf, fill, host, f) for (tf, fill) in TFCS for host in HOSTS for f in sp["sigma"]]
+    items = [(prop, tier, tf, fill, host, f, off, None) for (tf, fill) in TFCS for host in HOSTS for f in sp["sigma"]
+             for off in (("+", "b") if tf else ("b",))]
+    items += [(prop, tier, tf, fill, host, f, "+", LIFE_STEPS) for (tf, fill) in TFCS[:2] for host in ("ind", "hexd") for f in sp["sigma"]]
     rep = merge_all(pmap(explore, items))
     rule = ("every word over sigma^n x preload k x every composition of the remaining candles into appends x {base, T2, T2+fill} x host "
             "{Indicator, Hexital default timeframe, Hexital member timeframe} with candlestick_type=HA; every candle compared with the reference "
             "Heikin-Ashi recurrence over the reference collapse, raw values recoverable from clean_values, tags present, EMA(2) readings within "
-            "the interval reference over the converted closes; non-trivial = distinct case with >= 2 converted candles and >= 1 append")
+            "the interval reference over the converted closes; first candle on and off a bucket boundary; a lifespan variant compares the retained "
+            "candles with the tail of the recurrence over the whole history; non-trivial = distinct case with >= 2 converted candles and >= 1 append")
     return finish(prop, tier, rep, t0, rule=rule, bounds=dict(sp, tfcs=TFCS, hosts=HOSTS, variant=A.variant()), replay_confirm=replay,
                   assumptions=["TZ=UTC", "HA arithmetic compared at 1e-9 relative tolerance (operation order is free)"])
